@@ -1,9 +1,11 @@
 import Driver.Util
 import Driver.Bip
+import Driver.FrameCodec
 
 open Driver
 
 def components : List (String × (Script → Result)) :=
-  [("bip", Driver.Bip.check)]
+  [("bip", Driver.Bip.check),
+   ("codec", Driver.FrameCodec.check)]
 
 def main (args : List String) : IO UInt32 := Driver.mainWith components args
